@@ -85,6 +85,24 @@ macro_rules! stream_ops {
                 }
             }
 
+            /// the whole multishot stream, item by item, until `f` says stop or the stream ends
+            pub async fn multi_each(s: Rc<$S>, len: usize, mut f: Box<dyn FnMut(io::Result<Option<Vec<u8>>>) -> bool>) {
+                let mut r = &*s;
+                let st = r.read_multi(len);
+                let mut st = std::pin::pin!(st);
+                loop {
+                    let item = match st.next().await {
+                        None => Ok(None),
+                        Some(Ok(b)) => Ok(Some(b.as_init().to_vec())),
+                        Some(Err(e)) => Err(e),
+                    };
+                    let end = matches!(item, Ok(None));
+                    if !f(item) || end {
+                        break;
+                    }
+                }
+            }
+
             pub async fn ranc(
                 s: Rc<$S>,
                 buf: GBuf,
@@ -214,6 +232,10 @@ impl SH {
 
     pub fn multi(&self, len: usize, sh: Rc<MultiShared>) -> LocalFut<()> {
         dispatch!(self, multi(len, sh))
+    }
+
+    pub fn multi_each(&self, len: usize, f: Box<dyn FnMut(io::Result<Option<Vec<u8>>>) -> bool>) -> LocalFut<()> {
+        dispatch!(self, multi_each(len, f))
     }
 
     pub fn ranc(&self, buf: GBuf, ctl: CBuf) -> LocalFut<BufResult<(usize, usize, u32), (GBuf, CBuf)>> {
